@@ -426,3 +426,19 @@ class SPredSet:
 
     def __init__(self, fn, name):
         self.fn, self.name = fn, name
+
+
+class XList:
+    """A mutable list object: the elements of an immutable symbolic base sequence (possibly none) followed by finitely many
+    appended items.  Identity is Python identity (aliasing is preserved); a mutation of a pre-existing XList is a frame event."""
+
+    def __init__(self, base=None, items=None, prestate=True):
+        self.base = base
+        self.items = list(items or [])
+        self.prestate = prestate
+
+    def copy(self):
+        return XList(self.base, self.items, self.prestate)
+
+    def __repr__(self):
+        return f'XList(base={getattr(getattr(self.base, "src", None), "name", None)}, +{len(self.items)})'
